@@ -504,13 +504,18 @@ def run_check(prop: str, tier: str) -> int:
         "property_id": prop, "tier": tier, "seed": base_seed, "level": mod.LEVEL, "coverage": cov,
         "assumptions": mod.ASSUMPTIONS, "wall_s": round(wall, 2), "violations": reported,
     }
-    os.makedirs(os.path.join(VERIF, "evidence"), exist_ok=True)
-    with open(os.path.join(VERIF, "evidence", f"{prop}.json"), "w") as f:
+    # evidence describes /repo itself: a run against a scratch copy (sensitivity, seeded changes) writes under scratch/ instead
+    evdir = os.path.join(VERIF, "evidence")
+    if os.path.realpath(os.environ.get("VERIF_REPO", "/repo")) != os.path.realpath("/repo"):
+        evdir = os.path.join(VERIF, "scratch", "evidence-other-tree")
+        ev["repo"] = os.environ.get("VERIF_REPO")
+    os.makedirs(evdir, exist_ok=True)
+    with open(os.path.join(evdir, f"{prop}.json"), "w") as f:
         json.dump(ev, f, indent=1, sort_keys=True)
     if tier == "thorough":
         # keep the deep run's evidence next to the per-change one (which the next quick run overwrites)
-        os.makedirs(os.path.join(VERIF, "evidence", "thorough"), exist_ok=True)
-        with open(os.path.join(VERIF, "evidence", "thorough", f"{prop}.json"), "w") as f:
+        os.makedirs(os.path.join(evdir, "thorough"), exist_ok=True)
+        with open(os.path.join(evdir, "thorough", f"{prop}.json"), "w") as f:
             json.dump(ev, f, indent=1, sort_keys=True)
     print(f"[check] property={prop} tier={tier}: {total.runs} runs ({len(nontrivial)} distinct non-trivial, "
           f"{len(shapes)} shapes), {total.sim_seconds:.0f} simulated s, {wall:.1f}s wall, "
